@@ -216,7 +216,7 @@ func c10Corruptions(world, other *rvWorld, base *Update) []c10Cor {
 func TestVerifC10(t *testing.T) {
 	r := vkit.Start(t, "C10", "update-corruptions", 240*time.Second, 1500*time.Second)
 	defer r.Finish()
-	r.Rule = "base updates with 0,1,4,8,9 events of a 8-revocation history; every single corruption of the menu (event value/index +-1, swaps, delete/duplicate/insert, every byte flip / truncation length / extension / algorithm code / shorter well-formed digest of every parent hash, every byte of the signed accumulator blob, key counter +-1, accumulator substituted by every other validly signed one or by another key's, foreign events), thorough: every pair from the reduced menu; x transport {memory, JSON, CBOR} x operations {Update.Verify, Witness.Update, Update.Prepend, EventList.Verify}; non-trivial = corruption whose received message differs from the base; oracle: independent validator - success => authentic, rejection => receiver state unchanged"
+	r.Rule = "base updates with 0,1,4,8,9 events of a 8-revocation history; every single corruption of the menu (event value/index +-1, swaps, delete/duplicate/insert, every byte flip / truncation length / extension / algorithm code / shorter well-formed digest of every parent hash, every byte of the signed accumulator blob, key counter +-1, accumulator substituted by every other validly signed one or by another key's, foreign events), thorough: every pair from the reduced menu; x transport {memory, JSON, CBOR} x operations {Update.Verify, Witness.Update on witnesses just before / inside / at / ahead of the message's window incl. re-signed accumulators with a later time, Update.Prepend, EventList.Verify}; non-trivial = corruption whose received message differs from the base; oracle: independent validator - success => authentic, rejection => receiver state unchanged"
 	rvInstallEnv(t, "C10", r.Seed)
 	sk, pk := rvKeys(32, 7)
 	sk2, pk2 := rvKeys(32, 7)
@@ -228,11 +228,14 @@ func TestVerifC10(t *testing.T) {
 	world := rvNewWorld(sk, pk, es)
 	other := rvNewWorld(sk2, pk2, es)
 	H := 8
-	type baseSpec struct{ a, b int }
-	bases := []baseSpec{{1, H}, {5, H}, {H, H}, {0, H}, {H + 1, H}, {2, 5}}
+	type baseSpec struct {
+		a, b int
+		dt   int64 // the accumulator is (re-)signed dt seconds later than the one witnesses are issued against
+	}
+	bases := []baseSpec{{1, H, 0}, {5, H, 0}, {H, H, 0}, {0, H, 0}, {H + 1, H, 0}, {2, 5, 0}, {5, H, 10}, {H + 1, H, 10}}
 	forms := []string{"memory", "json", "cbor"}
 	for bi, bs := range bases {
-		base := world.Window(bs.a, bs.b, 0)
+		base := world.Window(bs.a, bs.b, bs.dt)
 		cors := c10Corruptions(world, other, base)
 		var list [][]c10Cor
 		for _, c := range cors {
@@ -338,10 +341,25 @@ func TestVerifC10(t *testing.T) {
 						}
 					}
 				}
-				// (2) Witness.Update on a witness positioned just before the first event
-				if len(base.Events) > 0 && bs.a >= 1 {
+				// (2) Witness.Update on a witness at every position relative to the message: just before the
+				// first event, inside the window, at the accumulator's own index (the message then only
+				// refreshes the time, or is stale), and ahead of it
+				var positions []int
+				for _, pos := range []int{bs.a - 1, (bs.a + bs.b) / 2, bs.b, bs.b + 1} {
+					if pos < 0 || pos > H {
+						continue
+					}
+					dup := false
+					for _, q := range positions {
+						dup = dup || q == pos
+					}
+					if !dup {
+						positions = append(positions, pos)
+					}
+				}
+				for _, pos := range positions {
 					r.Eval()
-					w := world.Witness(bs.a-1, rvPrime(0))
+					w := world.Witness(pos, rvPrime(0))
 					before := rvSnapshot(w)
 					u2 := c10Wire(recv)
 					var uerr error
@@ -356,8 +374,9 @@ func TestVerifC10(t *testing.T) {
 						if uerr != nil && changed {
 							r.Violate("C10|receiver-state-changed-on-rejection|Witness.Update|"+class, fmt.Sprintf("%s (%s): error %v but witness changed", desc, form, uerr), rep)
 						}
-						if uerr == nil && changed && auth == nil {
-							r.Violate("C10|Witness.Update-accepted-unauthentic|"+class, fmt.Sprintf("base %d (%s), %s: witness advanced although %s", bi, form, desc, why), rep)
+						r.Outcome(fmt.Sprintf("Witness.Update:position=%s:auth=%v:ok=%v:changed=%v", c10PosClass(pos, bs.a, bs.b), auth != nil, uerr == nil, changed))
+						if uerr == nil && auth == nil {
+							r.Violate("C10|Witness.Update-accepted-unauthentic|"+class+"|witness "+c10PosClass(pos, bs.a, bs.b), fmt.Sprintf("base %d (%s), %s: Witness.Update of a witness at index %d succeeded (witness changed: %v) although %s", bi, form, desc, pos, changed, why), rep)
 						}
 						if changed && w.Verify(pk) != nil {
 							r.Violate("C10|Witness.Update-left-invalid-witness|"+class, desc, rep)
@@ -649,4 +668,20 @@ func TestVerifC10HashEqual(t *testing.T) {
 		}
 	}
 	r.Sample(map[string]any{"candidates": len(cands), "pairs": len(cands) * len(cands)})
+}
+
+// c10PosClass names the position of a witness relative to an update message with events a..b.
+func c10PosClass(pos, a, b int) string {
+	switch {
+	case pos == a-1:
+		return "just-before"
+	case pos < a-1:
+		return "too-old"
+	case pos < b:
+		return "inside"
+	case pos == b:
+		return "at-the-accumulator"
+	default:
+		return "ahead"
+	}
 }
